@@ -33,14 +33,43 @@ impl Kind {
 }
 fn kind_of_point(p: &str) -> Option<Kind> {
     match p {
-        "capi.write.snapshot" => Some(Kind::Snap),
-        "capi.write.locked" => Some(Kind::Lock),
+        "capi.write.snapshot" | "capi.txn.snapshot" => Some(Kind::Snap),
+        "capi.write.locked" | "capi.txn.locked" => Some(Kind::Lock),
         "commit.run" => Some(Kind::Commit),
-        "capi.write.done" => Some(Kind::Unlock),
+        "capi.write.done" | "capi.txn.done" => Some(Kind::Unlock),
         _ => None,
     }
 }
-const POINTS: &[&str] = &["capi.write.begin", "capi.write.snapshot", "capi.write.locked", "commit.run", "capi.write.done"];
+const POINTS: &[&str] = &[
+    "capi.write.begin", "capi.write.snapshot", "capi.write.locked", "commit.run", "capi.write.done",
+    // explicit transactions (ndb_begin_write / ndb_txn_query / ndb_txn_commit) holding one statement
+    "capi.txn.begin", "capi.txn.snapshot", "capi.txn.locked", "capi.txn.done",
+];
+fn is_begin(p: &str) -> bool {
+    p == "capi.write.begin" || p == "capi.txn.begin"
+}
+
+/// one statement: auto-commit (ndb_execute_write) or an explicit transaction around it
+fn exec_stmt(db: &CDb, cypher: &str, explicit: bool) -> Result<(), String> {
+    if !explicit {
+        return db.exec(cypher).map(|_| ());
+    }
+    let mut txn: *mut ndb_capi::ndb_txn_t = std::ptr::null_mut();
+    if ndb_capi::ndb_begin_write(db.0, &mut txn) != ndb_capi::NDB_OK {
+        return Err(last_error());
+    }
+    let q = std::ffi::CString::new(cypher).unwrap();
+    if ndb_capi::ndb_txn_query(txn, q.as_ptr(), std::ptr::null()) != ndb_capi::NDB_OK {
+        let e = last_error();
+        let _ = ndb_capi::ndb_txn_rollback(txn);
+        return Err(e);
+    }
+    if ndb_capi::ndb_txn_commit(txn) != ndb_capi::NDB_OK {
+        return Err(last_error());
+    }
+    Ok(())
+}
+
 
 #[derive(Clone, Debug, PartialEq, Eq, PartialOrd, Ord)]
 enum Stmt {
@@ -100,18 +129,18 @@ fn teardown(db: Arc<CDb>) {
 }
 
 /// order of the four events of one statement, observed on the real code
-fn calibrate() -> Result<Vec<Kind>, String> {
+fn calibrate(explicit: bool) -> Result<Vec<Kind>, String> {
     let (_dir, db) = setup(0);
     let baton = Baton::new(1);
     baton.set_filter(0, POINTS);
     baton.install();
     let d = db.clone();
     let h = baton.spawn(0, move || {
-        d.exec(&Stmt::Add(1).cypher()).expect("exec");
+        exec_stmt(&d, &Stmt::Add(1).cypher(), explicit).expect("exec");
     });
     let mut order = vec![];
     let mut r = baton.wait_parked(0);
-    if r != Reached::Parked("capi.write.begin") {
+    if !matches!(r, Reached::Parked(p) if is_begin(p)) {
         baton.free_run();
         let _ = h.join();
         return Err(format!("calibration: first point is {:?} (schedule points missing? build with --cfg nervusdb_verif)", r));
@@ -147,7 +176,7 @@ struct Outcome {
     anomaly: Option<String>,
 }
 
-fn drive(group: &[Kind], v0: i64, stmts: &[Vec<Stmt>], sched_prefix: &[usize], complete: bool) -> Outcome {
+fn drive(group: &[Kind], v0: i64, stmts: &[Vec<Stmt>], sched_prefix: &[usize], complete: bool, explicit_mask: u32) -> Outcome {
     let n = stmts.len();
     let (_dir, db) = setup(v0);
     let baton = Baton::new(n);
@@ -159,16 +188,18 @@ fn drive(group: &[Kind], v0: i64, stmts: &[Vec<Stmt>], sched_prefix: &[usize], c
     for t in 0..n {
         let d = db.clone();
         let mine = stmts[t].clone();
+        let explicit = explicit_mask & (1 << t) != 0;
         handles.push(baton.spawn(t, move || {
             for s in &mine {
-                d.exec(&s.cypher()).expect("exec");
+                exec_stmt(&d, &s.cypher(), explicit).expect("exec");
             }
         }));
     }
     let mut anomaly = None;
     for t in 0..n {
         match baton.wait_parked(t) {
-            Reached::Parked("capi.write.begin") | Reached::Finished => {}
+            Reached::Parked(p) if is_begin(p) => {}
+            Reached::Finished => {}
             r => anomaly = Some(format!("thread {} first reached {:?}", t, r)),
         }
     }
@@ -203,7 +234,8 @@ fn drive(group: &[Kind], v0: i64, stmts: &[Vec<Stmt>], sched_prefix: &[usize], c
                 if pos[t] == group.len() {
                     pos[t] = 0;
                     match baton.step(t) {
-                        Reached::Parked("capi.write.begin") | Reached::Finished => {}
+                        Reached::Parked(p) if is_begin(p) => {}
+                        Reached::Finished => {}
                         r => *anomaly = Some(format!("thread {} after a statement reached {:?}", t, r)),
                     }
                 }
@@ -300,12 +332,13 @@ fn stress(threads: usize, per: usize) -> (i64, i64, f64) {
     let (_dir, db) = setup(0);
     let ok = Arc::new(std::sync::atomic::AtomicI64::new(0));
     let mut hs = vec![];
-    for _ in 0..threads {
+    for t in 0..threads {
         let d = db.clone();
         let ok = ok.clone();
         hs.push(std::thread::spawn(move || {
             for _ in 0..per {
-                if d.exec("MATCH (n:C) SET n.c = n.c + 1").is_ok() {
+                // odd threads use explicit transactions
+                if exec_stmt(&d, "MATCH (n:C) SET n.c = n.c + 1", t % 2 == 1).is_ok() {
                     ok.fetch_add(1, std::sync::atomic::Ordering::SeqCst);
                 }
             }
@@ -338,7 +371,19 @@ fn main() {
     let mut nontrivial = BTreeSet::<(Vec<Vec<Stmt>>, Vec<usize>)>::new();
     let mut fails = 0u64;
 
-    let group = match calibrate() {
+    // explicit single-statement transactions must show the same program order as auto-commit statements
+    match calibrate(true) {
+        Ok(g) => {
+            *hist.entry(format!("program_order_explicit_txn:{:?}", g)).or_insert(0) += 1;
+            if let Ok(g0) = calibrate(false) {
+                if g != g0 {
+                    rep.fail(0, None, &format!("explicit transactions run their steps in the order {:?}, auto-commit statements in {:?}", g, g0), json!({"phase": "calibration"}));
+                }
+            }
+        }
+        Err(e) => rep.fail(0, None, &format!("explicit transaction: {}", e), json!({"phase": "calibration"})),
+    }
+    let group = match calibrate(false) {
         Ok(g) => g,
         Err(e) => {
             rep.fail(0, None, &e, json!({"phase": "calibration"}));
@@ -388,7 +433,12 @@ fn main() {
 
     let mut idx = 0usize;
     for (tag, v0, stmts, sched, complete) in cases {
-        let o = drive(&group, v0, &stmts, &sched, complete);
+        // which threads wrap each statement in an explicit transaction (ndb_begin_write/ndb_txn_query/ndb_txn_commit)
+        let explicit_mask: u32 = if tag.starts_with("corpus") { 0 } else { match idx % 3 { 0 => 0, 1 => 0b1010, _ => 0b1111 } };
+        if explicit_mask != 0 {
+            *hist.entry(format!("explicit_txn_mask:{:#06b}", explicit_mask)).or_insert(0) += 1;
+        }
+        let o = drive(&group, v0, &stmts, &sched, complete, explicit_mask);
         *hist.entry(format!("kind:{}", tag.split(':').next().unwrap())).or_insert(0) += 1;
         *hist.entry(format!("threads:{}", stmts.len())).or_insert(0) += 1;
         *hist.entry(format!("done:{}", o.done)).or_insert(0) += 1;
@@ -399,7 +449,7 @@ fn main() {
             *hist.entry("overlapping_statements".into()).or_insert(0) += 1;
             nontrivial.insert((stmts.clone(), o.sched.clone()));
         }
-        let input = json!({"tag": tag, "v0": v0, "stmts": stmts.iter().map(|t| t.iter().map(|s| s.js()).collect::<Vec<_>>()).collect::<Vec<_>>(),
+        let input = json!({"tag": tag, "explicit_txn_thread_mask": explicit_mask, "v0": v0, "stmts": stmts.iter().map(|t| t.iter().map(|s| s.js()).collect::<Vec<_>>()).collect::<Vec<_>>(),
             "schedule": o.sched, "trace": o.trace.iter().map(|(t, k)| format!("{}:{:?}", t, k)).collect::<Vec<_>>(),
             "final": format!("{:?}", o.final_v), "done": o.done});
         if idx < 4 {
